@@ -340,6 +340,20 @@ def commandPack (c : Command) : R Bytes := do
   let b ← le v.length 2
   pure (a ++ b ++ v)
 
+/-- the value decoder `Command.unpack` dispatches to on the command type -/
+def cmdValueUnpack (ct : Nat) (value : Bytes) : R CmdValue :=
+  if ct = 1 then pure (.bitmask (Py.fromLE value))
+  else if ct = 2 then do
+    let i ← syntaxUnpack value
+    let t ← syntaxUnpack (value.drop 20)
+    pure (.pcontext i t)
+  else if ct = 3 then do
+    let pt ← at_ value 0
+    if ¬ validPacketType pt then throw .valueError
+    let dr ← dataRepUnpack (Py.sliceN value 4 8)
+    pure (.header2 pt dr (Py.fromLE (Py.sliceN value 8 12)) (Py.fromLE (Py.sliceN value 12 14)) (Py.fromLE (Py.sliceN value 14 16)))
+  else pure (.raw value)
+
 /-- `Command.unpack`; returns the command and the length of its value -/
 def commandUnpack (v : Bytes) : R (Command × Nat) := do
   let f := Py.fromLE (Py.sliceN v 0 2)
@@ -347,17 +361,7 @@ def commandUnpack (v : Bytes) : R (Command × Nat) := do
   let fl := f / 16384 * 16384
   let len := Py.fromLE (Py.sliceN v 2 4)
   let value := Py.sliceN v 4 (4 + len)
-  let cv ← (if ct = 1 then pure (.bitmask (Py.fromLE value))
-    else if ct = 2 then do
-      let i ← syntaxUnpack value
-      let t ← syntaxUnpack (value.drop 20)
-      pure (.pcontext i t)
-    else if ct = 3 then do
-      let pt ← at_ value 0
-      if ¬ validPacketType pt then throw .valueError
-      let dr ← dataRepUnpack (Py.sliceN value 4 8)
-      pure (.header2 pt dr (Py.fromLE (Py.sliceN value 8 12)) (Py.fromLE (Py.sliceN value 12 14)) (Py.fromLE (Py.sliceN value 14 16)))
-    else pure (.raw value) : R CmdValue)
+  let cv ← cmdValueUnpack ct value
   pure (⟨ct, fl, cv⟩, value.length)
 
 def vtSignature : Bytes := [0x8a, 0xe3, 0x13, 0x71, 0x02, 0xf4, 0x36, 0x71]
